@@ -37,7 +37,7 @@ def obligations(tier):
     for (m, c) in [(2, 2), (3, 1)]:
         obs.append(Ob(id=f'matrixcheck/{m}x{c}', harness='C10/misc.c', tus=T, defs={'HP_WHICH': 0, 'HP_M': m, 'HP_C': c, 'HP_O': 1, 'HP_TYPE': 0}, engine='bits', unwind=6, timeout=to, clause='NaN/Inf become MISSING', stubs=('sym_bits_env.c',)))
     for o in (1, 2):
-        for typ in ((1, 5) if not th else (-1, 0, 1, 4, 5)):      # options 2 and 3 (and 1 at the thorough timeout) were measured undecided at 900 s for tensors
+        for typ in ((0, 4, 5) if not th else (-1, 0, 1, 4, 5)):      # quick: option 1 was measured undecided at 120 s on the final run      # options 2 and 3 (and 1 at the thorough timeout) were measured undecided at 900 s for tensors
             obs.append(Ob(id=f'tensor/opt{typ}/o{o}', harness='C10/misc.c', tus=T, defs={'HP_WHICH': 1, 'HP_M': 3, 'HP_C': 1 if o == 2 else 2, 'HP_O': o, 'HP_TYPE': typ}, engine='real', unwind=8, timeout=to,
                           clause='tensor = blockwise', stubs=('sym_real_env.c',), real={'nomissing': True}))
     return obs
